@@ -910,6 +910,48 @@ theorem getfail_branch_is_ignore_only :
        "assign:data, err := replicator.GetMessage(seq)", "then:replicator.IgnoreMessage(seq)",
        "else:replicator.Replica(seq, data)"] := by decide
 
+/-! ### entries that decompress but yield no rows (round 12)
+
+`Replica`: `rowsLen == 0` returns; a panic inside `UnmarshalRows` unwinds through the deferred function with
+`err == nil`; `WriteRows`' error is a shadowed variable. In all three the deferred function calls
+`CommitSequence` and NOT `IgnoreMessage`: model event `applyNoRows`. -/
+
+/-- such an entry moves the consumer's head and (when it passes validation) the family's sequence, and
+nothing else: in particular NOTHING is acknowledged — the log keeps it until a later flush stores a
+sequence at or above it (every state, every `Cfg`) -/
+theorem norows_commits_without_ack (cfg : Cfg) (st : St) :
+    (step cfg st .applyNoRows).groupAck = st.groupAck ∧ (step cfg st .applyNoRows).stored = st.stored ∧
+    (step cfg st .applyNoRows).files = st.files ∧ (step cfg st .applyNoRows).memMut = st.memMut ∧
+    (step cfg st .applyNoRows).frozen = st.frozen ∧ (step cfg st .applyNoRows).log = st.log ∧
+    (step cfg st .applyNoRows).inflight = st.inflight ∧
+    ((step cfg st .applyNoRows).seq = st.seq ∨ (step cfg st .applyNoRows).seq = some (st.consumed + 1)) := by
+  simp only [step, whenRunning, doApplyNoRows]
+  repeat' split
+  all_goals simp
+
+/-- non-vacuity: two such entries behind a valid one: sequence 2 committed, nothing acknowledged; the next
+flush stores and acknowledges sequence 2 with the one row; after a crash nothing is replayed -/
+example :
+    (let st := run ⟨true, true, true⟩ St.init ([.append 0 0] ++ applyRound ++ [.appendBad, .applyNoRows, .appendBad, .applyNoRows])
+     st.groupAck = -1 ∧ st.seq = some 2 ∧ st.consumed = 2 ∧ st.memMut.length = 1) ∧
+    (let st := run ⟨true, true, true⟩ St.init ([.append 0 0] ++ applyRound ++ [.appendBad, .applyNoRows, .appendBad, .applyNoRows] ++
+       flushRound ++ [.crash, .recover, .rewind])
+     st.groupAck = 2 ∧ st.stored = some 2 ∧ st.consumed = 2 ∧ (fileRows st).length = 1) := by decide
+
+open LinVerif.Generated.C07 in
+/-- `Replica`'s error flow: the deferred function is registered AFTER the validation (a rejected sequence is
+neither ignored nor committed); it calls `IgnoreMessage` only under `err != nil` and `CommitSequence`
+unconditionally; the only statement that sets that `err` is `Uncompress` (`applyBegin` on a corrupt entry);
+`rowsLen == 0` returns with `err == nil` and the error of `WriteRows` is a NEW variable (`:=` in the if
+header), so both reach the deferred function with `err == nil`: `applyNoRows`. -/
+theorem replica_error_flow_is_model :
+    replicaErrFlow =
+      ["var:err", "guard:!r.family.ValidateSequence(r.leader, sequence)", "return",
+       "defer-if:err != nil", "defer-then:r.IgnoreMessage(sequence)", "defer:r.family.CommitSequence(r.leader, sequence)",
+       "set:block, err = r.reader.Uncompress", "guard:err != nil", "return",
+       "guard:rowsLen == 0", "return",
+       "shadow:err := r.family.WriteRows", "guard:err != nil", "return"] := by decide
+
 /-! ### WAL garbage collection (non-vacuity of `walExpire`) -/
 
 /-- an expired family's log is NOT removed while an entry is consumed but not flushed; it is removed
